@@ -327,13 +327,23 @@ def rejecting(body, block):
 def try_continue_block(body, call_site):
     """For `x = call(..)?` : the block entered on the Ok (Continue) edge of the `?`, else None."""
     for c in body.calls_to("Try::branch"):
-        a = c.args[0]
+        a = peel(c.args[0])
         if isinstance(a, tuple) and a[0] == "call" and a[3] == call_site.bb:
             si = body.switch_info(c.target) if c.target is not None else None
             if si:
                 for v, tgt in si[1]:
                     if v == 0:
                         return tgt
+    # the same written out: `match call(..) { Ok(v) => .., Err(e) => return Err(..) }` / `if let Err(e) = call(..) { return Err(e) }`
+    for bi in body.reach(call_site.bb):
+        si = body.switch_info(bi)
+        if si and si[0][0] == "discr" and peel(si[0][1], transparent=[]) == call_site.result_term():
+            oks = [tgt for v, tgt in si[1] if v == 0]
+            errs = [tgt for v, tgt in si[1] if v == 1] or ([si[2]] if body.blocks[si[2]]["term"]["k"] != "unreachable" else [])
+            if not oks and len(si[1]) == 1 and si[1][0][0] == 1:
+                oks = [si[2]]
+            if len(oks) == 1 and len(errs) == 1 and rejecting(body, errs[0]):
+                return oks[0]
     return None
 
 
